@@ -12,6 +12,8 @@ import (
 )
 
 type loopCtx struct {
+	ord       int           // loop ordinal (-1: switch/select pseudo loops)
+	lc        *LoopContract // contract of the loop (Returns clauses are checked at returns inside it)
 	label     string
 	breaks    []*State
 	continues []*State
@@ -349,8 +351,18 @@ func (u *Unit) loopHeapEffects(n ast.Node) (all bool, some map[string]bool) {
 		switch n := n.(type) {
 		case *ast.FuncLit:
 			return u.inlineLit[n]
-		case *ast.GoStmt, *ast.DeferStmt, *ast.SendStmt, *ast.SelectStmt:
+		case *ast.GoStmt, *ast.DeferStmt:
 			all = true
+		case *ast.SendStmt, *ast.SelectStmt:
+			// channel operations write no heap themselves; they are synchronisation points at which the writes of
+			// goroutines spawned by this function become visible (resync)
+			if u.hasGoStmt() {
+				all = true
+			}
+		case *ast.UnaryExpr:
+			if n.Op == token.ARROW && u.hasGoStmt() {
+				all = true
+			}
 		case *ast.AssignStmt:
 			for _, l := range n.Lhs {
 				u.lhsHeaps(l, some, &all)
@@ -474,6 +486,22 @@ func (u *Unit) loopHeapEffects(n ast.Node) (all bool, some map[string]bool) {
 	}
 	ast.Inspect(n, visit)
 	return
+}
+
+// hasGoStmt: the function under verification spawns a goroutine somewhere in its body.
+func (u *Unit) hasGoStmt() bool {
+	if u.goScan == 0 {
+		u.goScan = 1
+		if u.decl != nil && u.decl.Body != nil {
+			ast.Inspect(u.decl.Body, func(n ast.Node) bool {
+				if _, ok := n.(*ast.GoStmt); ok {
+					u.goScan = 2
+				}
+				return u.goScan == 1
+			})
+		}
+	}
+	return u.goScan == 2
 }
 
 func (u *Unit) cellHeapName(pointee types.Type) string {
@@ -854,6 +882,9 @@ func (u *Unit) exec(st *State, s ast.Stmt) *State {
 	case *ast.SelectStmt:
 		return u.execSelect(st, s)
 	case *ast.GoStmt:
+		if u.spawnContracted(st, s.Call) {
+			return st
+		}
 		u.unsupportedf(s.Pos(), "go statement: spawned call abstracted (heaps havoced; data-race freedom assumed)")
 		for _, a := range s.Call.Args {
 			u.eval(st, a)
@@ -883,6 +914,7 @@ func (u *Unit) exec(st *State, s ast.Stmt) *State {
 		u.eval(st, s.Chan)
 		u.eval(st, s.Value)
 		u.unsupportedf(s.Pos(), "channel send abstracted")
+		u.resync(st)
 		return st
 	}
 	u.giveUp(s.Pos(), "unsupported statement %T", s)
@@ -1009,6 +1041,23 @@ func (u *Unit) execReturn(st *State, s *ast.ReturnStmt) {
 	if u.isDead(st) {
 		return
 	}
+	// `loop N returns <cond>` clauses of the enclosing loops
+	for _, lx := range u.loopStack {
+		if lx.lc == nil || len(lx.lc.Returns) == 0 || s == nil {
+			continue
+		}
+		env := u.invEnv(st, s.Pos())
+		for i, rv := range u.results {
+			t := u.readVar(st, rv, token.NoPos)
+			env.names[fmt.Sprintf("result%d", i)] = t
+			if i == 0 {
+				env.names["result"] = t
+			}
+		}
+		for k, cl := range lx.lc.Returns {
+			u.emit(st, "post", fmt.Sprintf("loop-return#%d.%d", lx.ord, k), fmt.Sprintf("at a return inside loop %d: %s", lx.ord, cl.Text), s.Pos(), env.evalBool(cl.Expr))
+		}
+	}
 	u.finishReturn(st, s)
 }
 
@@ -1023,13 +1072,21 @@ func (u *Unit) finishReturn(st *State, s *ast.ReturnStmt) {
 			continue
 		}
 		call := u.deferList[i]
-		if _, isLit := call.Fun.(*ast.FuncLit); isLit {
+		if fl, isLit := call.Fun.(*ast.FuncLit); isLit {
+			if u.inlinableDeferLit(call, fl) {
+				u.execLitInline(st, call, fl)
+				if u.isDead(st) {
+					return
+				}
+				continue
+			}
 			u.unsupportedf(call.Pos(), "deferred function literal abstracted (heaps havoced)")
 			u.havocAllHeaps(st)
 			continue
 		}
 		u.eval(st, call)
 	}
+	u.resync(st)
 	u.retCount++
 	u.checkPost(st, pos)
 }
@@ -1103,8 +1160,8 @@ func (u *Unit) frameGoals(st *State, only map[string]bool) []frameGoal {
 	oldEnv := &SpecEnv{u: u, st: u.entry, old: u.entry, names: map[string]Term{}, cs: u.cs, pkg: u.pkg.Types, own: true, scopePos: u.bodyPos, inOld: true}
 	for _, m := range u.ct.Modifies {
 		if arg, ok := typeWideModifies(m); ok {
-			if sl := u.typeWideSlice(oldEnv, arg); sl != nil {
-				mapMods[u.elemHeap(sl.Elem())] = true
+			if h := u.typeWideHeap(oldEnv, arg); h != "" {
+				mapMods[h] = true
 			}
 			continue
 		}
@@ -1300,7 +1357,11 @@ func (u *Unit) locksTouched(n ast.Node) bool {
 			if callee.Pkg() != nil && u.eng.isRepoPkg(callee.Pkg().Path()) {
 				ct, _ := u.eng.contractFor(callee)
 				if ct == nil {
-					touched = true
+					// an uncontracted function of ANOTHER package cannot reach the mutexes of this package's types
+					// (no import cycle), except through callbacks, which are lock-call-dyn obligations where they are called
+					if callee.Pkg() == u.pkg.Types {
+						touched = true
+					}
 					return true
 				}
 				for _, cl := range append(append([]Clause{}, ct.Requires...), ct.Ensures...) {
@@ -1380,7 +1441,7 @@ func (u *Unit) runLoop(st *State, lc *LoopContract, n int, label string, pos, bo
 	if len(lc.Invariants) > 0 {
 		u.emitExpect(in, "canary", fmt.Sprintf("cover-loop#%d", n), "loop body reachable under the invariant", pos, "false", "sat")
 	}
-	lctx := &loopCtx{label: label}
+	lctx := &loopCtx{label: label, ord: n, lc: lc}
 	u.loopStack = append(u.loopStack, lctx)
 	after := body(in)
 	u.loopStack = u.loopStack[:len(u.loopStack)-1]
@@ -1578,7 +1639,18 @@ func (u *Unit) execRangeMap(st *State, s *ast.RangeStmt, lc *LoopContract, n int
 			}
 			return u.execBlock(st, s.Body.List)
 		},
-		func(st *State) *State { return st }, []*types.Var{vis})
+		func(st *State) *State {
+			// normal exit: if the body cannot write a map of this type, every present key has been visited
+			hp, _ := u.mapHeaps(mt)
+			if all, some := u.loopHeapEffects(s.Body); !all && !some[hp] {
+				u.c.n++
+				kq := fmt.Sprintf("k_q%d", u.c.n)
+				cur := st.vars[vis]
+				present := fmt.Sprintf("(select (select %s %s) %s)", u.heapRead(st, hp), m.S, kq)
+				st.assume(fmt.Sprintf("(forall ((%s %s)) (! (=> %s (select %s %s)) :pattern (%s)))", kq, ks, present, cur.S, kq, present))
+			}
+			return st
+		}, []*types.Var{vis})
 }
 
 // chanGhost declares the ghost sequence of values received from a channel until it is closed:
@@ -1833,7 +1905,14 @@ func (u *Unit) runInlineDefers(st *State, fr *inlineFrame) {
 			continue
 		}
 		call := fr.defers[i]
-		if _, isLit := call.Fun.(*ast.FuncLit); isLit {
+		if fl, isLit := call.Fun.(*ast.FuncLit); isLit {
+			if u.inlinableDeferLit(call, fl) {
+				saved := u.inlineStack
+				u.inlineStack = u.inlineStack[:len(u.inlineStack)-1]
+				u.execLitInline(st, call, fl)
+				u.inlineStack = saved
+				continue
+			}
 			u.unsupportedf(call.Pos(), "deferred function literal abstracted (heaps havoced)")
 			u.havocAllHeaps(st)
 			continue
@@ -1873,6 +1952,38 @@ func (u *Unit) inlineReturn(st *State, s *ast.ReturnStmt) {
 	}
 	u.runInlineDefers(st, fr)
 	fr.rets = append(fr.rets, st)
+}
+
+// inlinableDeferLit: a deferred `func() { ... }()` without arguments (arguments would have to be evaluated at the defer
+// statement), without recover() and without defers of its own is executed at the function exits.
+func (u *Unit) inlinableDeferLit(call *ast.CallExpr, fl *ast.FuncLit) bool {
+	if len(call.Args) != 0 || fl.Type.Params.NumFields() != 0 {
+		return false
+	}
+	ok := true
+	ast.Inspect(fl.Body, func(n ast.Node) bool {
+		switch x := n.(type) {
+		case *ast.DeferStmt, *ast.GoStmt:
+			ok = false
+		case *ast.CallExpr:
+			if id, isId := ast.Unparen(x.Fun).(*ast.Ident); isId && id.Name == "recover" {
+				if _, isB := u.info.Uses[id].(*types.Builtin); isB {
+					ok = false
+				}
+			}
+		}
+		return ok
+	})
+	return ok
+}
+
+// resync re-applies the frame of the goroutines spawned so far (`go f(args)` with a contracted f): under the data-race
+// freedom assumption the parent can observe their writes only after a synchronisation operation, so the spawned
+// functions' modifies targets are havoced again at channel operations, lock operations, WaitGroup.Wait and returns.
+func (u *Unit) resync(st *State) {
+	for _, f := range u.spawned {
+		f(st)
+	}
 }
 
 // execLitInline runs the body of a function literal at its call site (same verification unit, no contract needed).
